@@ -266,3 +266,154 @@ func firstDiff(want, got []string) string {
 	}
 	return ""
 }
+
+// ---------------------------------------------------------------- A-stop x B-stop
+
+// Group reusex: the cross product of how run A ends with how run B ends. Group
+// reuse lets run B go on for several iterations, so state that run B itself
+// overwrites early (CmaEsChol's per-sample values after its first complete
+// generation, the first line search of a local method) is only visible when B
+// is stopped early too. Here run B is stopped by every cause at every index
+// 1..K as well, for the multi-task methods with Concurrent 1, 2, 3 in full and
+// for the local methods in a thin version (full in the thorough tier). P1 also
+// comes with its values lowered by 100, so that anything left over from run A
+// looks better than everything run B evaluates.
+
+func lowered(o *objective, by float64) *objective {
+	c := *o
+	c.name = fmt.Sprintf("%s-%g", o.name, by)
+	c.mk = func() *objInst {
+		in := o.mk()
+		return &objInst{f: func(x []float64) float64 { return in.f(x) - by }, g: in.g, h: in.h}
+	}
+	c.xstar = nil
+	return &c
+}
+
+type bStop struct {
+	name string
+	set  func(c *runCfg)
+}
+
+func bStops(m *methodSpec, K int, thin bool) []bStop {
+	var out []bStop
+	add := func(name string, set func(c *runCfg)) { out = append(out, bStop{name, set}) }
+	for k := 1; k <= K; k++ {
+		k := k
+		if thin && k > 3 {
+			break
+		}
+		add(fmt.Sprintf("F=%d", k), func(c *runCfg) { c.limF = k })
+		if !thin || k <= 2 {
+			add(fmt.Sprintf("It=%d", k), func(c *runCfg) { c.limIt = k })
+			if m.grad {
+				add(fmt.Sprintf("G=%d", k), func(c *runCfg) { c.limG = k })
+			}
+		}
+		if m.hess && (!thin || k <= 2) {
+			add(fmt.Sprintf("H=%d", k), func(c *runCfg) { c.limH = k })
+		}
+		if !thin || k == 2 || k == 3 {
+			add(fmt.Sprintf("Rec@%d", k), func(c *runCfg) { c.recMode = k })
+		}
+		if !thin {
+			add(fmt.Sprintf("Status@%d", k), func(c *runCfg) { c.status = statusMode{at: k, st: optimize.Success} })
+		}
+	}
+	return out
+}
+
+func genReuseCross(g *vlib.G) {
+	methods := allMethods()
+	th := g.Thorough()
+	K := vlib.Pick(g, 5, 9)
+	spd2 := sweepSPD()[1]
+	p1s := []*objective{spd2, lowered(spd2, 100), lowered(rosenbrock2(), 100)}
+	for mi := range methods {
+		m := &methods[mi]
+		lss := []int{0}
+		if m.usesLS {
+			lss = []int{1, 2, 3}
+		}
+		concs := []int{0}
+		if !m.local {
+			concs = []int{1, 2, 3}
+		}
+		thin := m.local && !th
+		p2s := []*objective{catalogue()[1]}
+		if !m.local || th {
+			p2s = append(p2s, sweepSPD()[2])
+		}
+		for _, ls := range lss {
+			for _, conc := range concs {
+				m, ls, conc := m, ls, conc
+				g.Case(fmt.Sprintf("%s ls=%s conc=%d", m.name, lsNames[ls], conc), func(t *vlib.T) {
+					runs, pairs, differing, bad := 0, 0, 0, 0
+					fail := func(sub, class, format string, a ...any) {
+						bad++
+						if bad <= 4 {
+							report(t, sub, class, nil, format, a...)
+						}
+					}
+					exec := func(c *runCfg) *runResult {
+						var r runResult
+						x := runDefault(c.body(&r), c.horizon())
+						runs++
+						if x.Outcome != "ok" {
+							fail(" cfg="+c.String(), c.failureClass(x.Outcome, r.lg), "Minimize did not return normally: %s [%s]", x.Outcome, c.String())
+							return nil
+						}
+						return &r
+					}
+					svs := stopVariants(m, K, p1s)
+					for _, p2 := range p2s {
+						for _, bs := range bStops(m, K, thin) {
+							cfgB := func(method optimize.Method) *runCfg {
+								c := &runCfg{m: m, ls: ls, o: p2, limF: 40, limIt: 6, conc: conc, recMode: 0, trace: true, method: method}
+								bs.set(c)
+								return c
+							}
+							fresh := exec(cfgB(nil))
+							if fresh == nil {
+								continue
+							}
+							want := observable(fresh)
+							for _, sv := range svs {
+								method := m.mk(mkLS(ls), sv.o)
+								cA := &runCfg{m: m, ls: ls, o: sv.o, conc: conc, recMode: -1, method: method}
+								sv.set(cA)
+								rA := exec(cA)
+								if rA == nil {
+									continue
+								}
+								retarget(method, p2)
+								cB := cfgB(method)
+								rB := exec(cB)
+								if rB == nil {
+									continue
+								}
+								pairs++
+								sub := fmt.Sprintf(" A=[%s] B=%s stopped by %s", sv.name, p2.name, bs.name)
+								if d := firstDiff(want, observable(rB)); d != "" {
+									differing++
+									fail(sub, "reuse-state-leak-"+strings.ToLower(strings.ReplaceAll(m.name, "/", "-")), "run B on %s (stopped by %s) with a %s value that has been through run A (%s; A ended %s) differs from run B with a fresh value: %s; reused result: %s; fresh result: %s",
+										p2.name, bs.name, m.name, sv.name, describe(rA), d, describe(rB), describe(fresh))
+									continue
+								}
+								if class, msg := cB.check(rB); msg != "" {
+									fail(sub+" (run B)", class, "run B (reused method): %s [%s] result: %s", msg, cB.String(), describe(rB))
+								}
+							}
+						}
+					}
+					t.Count("minimize_runs", int64(runs))
+					t.Count("traces_validated_against_impl", int64(runs))
+					t.Count("reuse_cross_pairs", int64(pairs))
+					t.Count("reuse_cross_pairs_differing", int64(differing))
+					t.Nontrivial()
+					t.Outcome(fmt.Sprintf("differing=%v", differing > 0))
+				})
+			}
+		}
+	}
+}
